@@ -11,8 +11,6 @@ namespace XmlDiffModel
 namespace Rej
 open Tree Undo TextMark Acc
 
-/-- `INSERT_NAME in node.attrib` -/
-def isIns (t : Tree) : Bool := attrHas t.payload.attrs INSERT_NAME
 
 /-- rejected reading of a marked string; the flag says "inside an insert wrapper" -/
 def rejChars : Bool → Str → Str
